@@ -64,6 +64,15 @@ type c13Stack struct {
 	viewKind   int              // 0 none, 1 physical.View, 2 logical view
 	purger     physical.ToggleablePurgemonster
 	closeFn    func()
+	// begin starts a transaction on the highest layer of the stack that offers one (nil when none does); the returned
+	// kv goes through every layer of the stack (a physical.View, which is not transactional itself, is put over the transaction)
+	begin func(ctx context.Context, readOnly bool) (*c13TxnH, error)
+}
+
+type c13TxnH struct {
+	kv       sxKV
+	commit   func(ctx context.Context) error
+	rollback func(ctx context.Context) error
 }
 
 func c13Build(spec c13Spec, dir string) (*c13Stack, error) {
@@ -112,6 +121,26 @@ func c13Build(spec c13Spec, dir string) (*c13Stack, error) {
 	if spec.enc {
 		cur = physical.NewStorageEncoding(cur)
 	}
+	if tb, ok := cur.(physical.TransactionalBackend); ok && !spec.barrier && !spec.logical {
+		pview := spec.pview
+		st.begin = func(ctx context.Context, ro bool) (*c13TxnH, error) {
+			var tx physical.Transaction
+			var err error
+			if ro {
+				tx, err = tb.BeginReadOnlyTx(ctx)
+			} else {
+				tx, err = tb.BeginTx(ctx)
+			}
+			if err != nil {
+				return nil, err
+			}
+			var b physical.Backend = tx
+			if pview {
+				b = physical.NewView(tx, "v/w/")
+			}
+			return &c13TxnH{kv: sxPhys{b}, commit: tx.Commit, rollback: tx.Rollback}, nil
+		}
+	}
 	if spec.pview {
 		st.fullPrefix = "v/w/"
 		st.viewKind = 1
@@ -153,6 +182,21 @@ func c13Build(spec c13Spec, dir string) (*c13Stack, error) {
 	st.top = sxLog{ls}
 	st.clearable = ls
 	st.logicalTop = ls
+	if ts, ok := ls.(logical.TransactionalStorage); ok {
+		st.begin = func(ctx context.Context, ro bool) (*c13TxnH, error) {
+			var tx logical.Transaction
+			var err error
+			if ro {
+				tx, err = ts.BeginReadOnlyTx(ctx)
+			} else {
+				tx, err = ts.BeginTx(ctx)
+			}
+			if err != nil {
+				return nil, err
+			}
+			return &c13TxnH{kv: sxLog{tx}, commit: tx.Commit, rollback: tx.Rollback}, nil
+		}
+	}
 	return st, nil
 }
 
@@ -381,7 +425,27 @@ type c13Run struct {
 	ntAfter bool // listing returned/expected a directory entry with a non-empty after
 	ntPfx   bool // a key that is also a prefix of another key was present during a listing
 	feats   map[string]bool
+	recent  []string // keys read, written or deleted through the top outside a transaction (most recent last): likely cached
+	deleted []string // keys removed lately (delete, committed transactional delete, clear): must stay gone for point reads
+	txnCommits, txnRollbacks, txnDelCached int64
 }
+
+func c13Remember(l []string, k string, max int) []string {
+	for i, x := range l {
+		if x == k {
+			l = append(l[:i], l[i+1:]...)
+			break
+		}
+	}
+	l = append(l, k)
+	if len(l) > max {
+		l = l[len(l)-max:]
+	}
+	return l
+}
+
+func (r *c13Run) touchedOutside(k string) { r.recent = c13Remember(r.recent, k, 12) }
+func (r *c13Run) noteDeleted(k string)    { r.deleted = c13Remember(r.deleted, k, 24) }
 
 func (r *c13Run) keys() []string { return sxSortedKeys(r.m) }
 
@@ -471,6 +535,7 @@ func (r *c13Run) put(rt *rapid.T) {
 	}
 	r.m[k] = append([]byte{}, v...)
 	r.noteKey(k)
+	r.touchedOutside(k)
 }
 
 func (r *c13Run) noteKey(k string) {
@@ -496,6 +561,7 @@ func (r *c13Run) get(rt *rapid.T) {
 	if r.errOutcome("get", k, err) {
 		return
 	}
+	r.touchedOutside(k)
 	want, exists := r.m[k]
 	if ok != exists || (ok && !bytes.Equal(v, want)) {
 		r.viol("get-mismatch", "get %s returned (%x, found=%v), the last put/delete left (%x, found=%v)", sxQ(k), v, ok, want, exists)
@@ -514,6 +580,8 @@ func (r *c13Run) del(rt *rapid.T) {
 		return
 	}
 	delete(r.m, k)
+	r.touchedOutside(k)
+	r.noteDeleted(k)
 }
 
 func (r *c13Run) noteListing(prefix, after string, want []string) {
@@ -735,8 +803,175 @@ func (r *c13Run) clear(rt *rapid.T) {
 		r.viol("clear-error", "%s failed: %v", name, err)
 		return
 	}
+	for _, k := range r.keys() {
+		r.noteDeleted(k)
+	}
 	r.m = map[string][]byte{}
 	r.foreign = map[string]bool{} // clearing the bare barrier removes its keyring entries as well: they are under the (whole-store) view
+}
+
+// transaction: begin on the highest transactional layer, 1-4 generated put/delete/get/list operations through all layers
+// of the stack, then commit or rollback. No concurrent writer exists, so reads inside see model+own writes, a commit
+// must succeed (C08: no failure when nothing was committed in between) and applies all writes, a rollback none.
+func (r *c13Run) transaction(rt *rapid.T) {
+	if r.st.begin == nil {
+		rt.Skip("stack has no transactional layer")
+	}
+	ro := rapid.IntRange(0, 7).Draw(rt, "txnReadOnly") == 0
+	var h *c13TxnH
+	var err error
+	r.watch("begin", func() { h, err = r.st.begin(r.ctx, ro) })
+	if err != nil {
+		rt.Fatalf("harness: begin: %v", err)
+	}
+	finished := false
+	defer func() {
+		if !finished {
+			_ = h.rollback(r.ctx)
+		}
+	}()
+	type wr struct {
+		del bool
+		val []byte
+	}
+	overlay := map[string]wr{}
+	var order []string
+	view := func() map[string][]byte {
+		m := sxCloneMap(r.m)
+		for k, w := range overlay {
+			if w.del {
+				delete(m, k)
+			} else {
+				m[k] = w.val
+			}
+		}
+		return m
+	}
+	genKey := func() string {
+		// keys touched outside a transaction (hence probably in the read cache) are likely
+		if len(r.recent) > 0 && rapid.IntRange(0, 9).Draw(rt, "txnKeyRecent") < 6 {
+			return r.recent[rapid.IntRange(0, len(r.recent)-1).Draw(rt, "txnRecentKey")]
+		}
+		return r.st.genKey(rt, sxSortedKeys(view()))
+	}
+	r.log("txn begin ro=%v", ro)
+	delCached := 0
+	for i, n := 0, rapid.IntRange(1, 4).Draw(rt, "txnOps"); i < n; i++ {
+		switch rapid.SampledFrom([]string{"put", "delete", "delete", "get", "list"}).Draw(rt, "txnOp") {
+		case "put":
+			k := genKey()
+			v := rapid.SliceOfN(rapid.Byte(), 1, 4).Draw(rt, "txnVal")
+			var err error
+			r.watch("txn put", func() { err = h.kv.Put(r.ctx, k, v) })
+			r.log("txn put %s=%x -> %v", sxQ(k), v, err)
+			if ro {
+				if !errors.Is(err, physical.ErrTransactionReadOnly) {
+					if _, may := r.st.c13Verdict("put", k); !may || err == nil {
+						r.viol("readonly-txn-accepts-write", "Put(%s) in a read-only transaction returned %v", sxQ(k), err)
+					}
+				}
+				continue
+			}
+			if r.errOutcome("put", k, err) {
+				continue
+			}
+			overlay[k] = wr{val: v}
+			order = append(order, k)
+			r.noteKey(k)
+		case "delete":
+			k := genKey()
+			var err error
+			r.watch("txn delete", func() { err = h.kv.Delete(r.ctx, k) })
+			r.log("txn delete %s -> %v", sxQ(k), err)
+			if ro {
+				if !errors.Is(err, physical.ErrTransactionReadOnly) {
+					if _, may := r.st.c13Verdict("delete", k); !may || err == nil {
+						r.viol("readonly-txn-accepts-write", "Delete(%s) in a read-only transaction returned %v", sxQ(k), err)
+					}
+				}
+				continue
+			}
+			if r.errOutcome("delete", k, err) {
+				continue
+			}
+			if _, exists := r.m[k]; exists {
+				for _, c := range r.recent {
+					if c == k {
+						delCached++
+						break
+					}
+				}
+			}
+			overlay[k] = wr{del: true}
+			order = append(order, k)
+		case "get":
+			k := genKey()
+			var gk string
+			var v []byte
+			var ok bool
+			var err error
+			r.watch("txn get", func() { gk, v, ok, err = h.kv.Get(r.ctx, k) })
+			r.log("txn get %s -> %x %v %v", sxQ(k), v, ok, err)
+			if r.errOutcome("get", k, err) {
+				continue
+			}
+			want, exists := view()[k]
+			if ok != exists || (ok && !bytes.Equal(v, want)) {
+				r.viol("txn-get-mismatch", "Get(%s) inside a transaction returned (%x, found=%v), committed state + own writes hold (%x, found=%v)", sxQ(k), v, ok, want, exists)
+			}
+			if ok && gk != k {
+				r.viol("get-entry-key", "get %s inside a transaction returned an entry whose Key is %s", sxQ(k), sxQ(gk))
+			}
+		case "list":
+			vk := sxSortedKeys(view())
+			for f := range r.foreign {
+				vk = append(vk, f)
+			}
+			sort.Strings(vk)
+			p := r.st.genPrefix(rt, vk)
+			after := r.st.genAfter(rt, sxEntries(vk, p))
+			limit := c13GenLimit(rt)
+			var got []string
+			var err error
+			r.watch("txn listpage", func() { got, err = h.kv.ListPage(r.ctx, p, after, limit) })
+			r.log("txn listpage %s after=%s limit=%d -> %s %v", sxQ(p), sxQ(after), limit, sxQL(got), err)
+			if r.errOutcome("list", p, err) {
+				continue
+			}
+			if want := sxListPage(vk, p, after, limit); !sxEqList(got, want) {
+				r.viol("txn-listpage-mismatch", "ListPage(%s, after=%s, limit=%d) inside a transaction = %s, committed state + own writes give %s", sxQ(p), sxQ(after), limit, sxQL(got), sxQL(want))
+			}
+		}
+	}
+	commit := rapid.IntRange(0, 3).Draw(rt, "txnCommit") > 0
+	finished = true
+	if !commit {
+		var err error
+		r.watch("rollback", func() { err = h.rollback(r.ctx) })
+		r.log("txn rollback -> %v", err)
+		r.txnRollbacks++
+		if err != nil {
+			r.viol("txn-rollback-error", "rollback failed: %v", err)
+		}
+		return
+	}
+	r.watch("commit", func() { err = h.commit(r.ctx) })
+	r.log("txn commit -> %v", err)
+	if err != nil {
+		r.viol("txn-commit-failed-without-concurrent-writer", "commit of a transaction failed though nothing else was written since its begin: %v", err)
+		return
+	}
+	r.txnCommits++
+	r.txnDelCached += int64(delCached)
+	for _, k := range order {
+		w := overlay[k]
+		if w.del {
+			delete(r.m, k)
+			r.noteDeleted(k)
+		} else {
+			r.m[k] = append([]byte{}, w.val...)
+		}
+	}
 }
 
 func (r *c13Run) purge(rt *rapid.T) {
@@ -796,6 +1031,29 @@ func (r *c13Run) invariant(rt *rapid.T) {
 	}
 	if !sxEqMap(got, want) {
 		r.viol("state-mismatch", "full scan of the top = %s, model %s", sxQM(got), sxQM(want))
+	}
+	// point reads of every model key, independent of what the listings returned
+	for _, k := range r.keys() {
+		w := r.m[k]
+		_, v, ok, err := r.st.top.Get(r.ctx, k)
+		if err != nil || !ok || !bytes.Equal(v, w) {
+			r.viol("get-mismatch", "get %s returned (%x, found=%v, err %v), the model holds %x", sxQ(k), v, ok, err, w)
+		}
+	}
+	// point reads of lately removed keys: a resurrected key does not show in a listing-driven scan
+	for _, k := range r.deleted {
+		if _, back := r.m[k]; back {
+			continue
+		}
+		if _, may := r.st.c13Verdict("get", k); may {
+			continue
+		}
+		_, v, ok, err := r.st.top.Get(r.ctx, k)
+		if err != nil {
+			r.viol("scan-error", "get of removed key %s failed: %v", sxQ(k), err)
+		} else if ok {
+			r.viol("deleted-key-still-readable", "get %s returned (%x, found=true) although the key was deleted (listing and model do not have it)", sxQ(k), v)
+		}
 	}
 	// the underlying store
 	rawGot, err := sxDump(r.ctx, sxPhys{r.st.raw})
@@ -908,6 +1166,8 @@ func c13RunStack(t *testing.T, spec c13Spec, salt int) {
 				}
 			},
 			"purge": r.purge,
+			"txn":   r.transaction,
+			"txn2":  r.transaction,
 			"":      r.invariant,
 		})
 		class := "trivial"
@@ -922,6 +1182,9 @@ func c13RunStack(t *testing.T, spec c13Spec, salt int) {
 		for f := range r.feats {
 			rec.Class("case-with-"+f, 1)
 		}
+		rec.Class("txn-commit", r.txnCommits)
+		rec.Class("txn-rollback", r.txnRollbacks)
+		rec.Class("txn-delete-of-cached-key", r.txnDelCached)
 		rec.Case(class, r.ntAfter || r.ntPfx, verifx.Digest(strings.Join(r.hist, "\n")), func() any {
 			h := r.hist
 			if len(h) > 25 {
